@@ -25,7 +25,7 @@ pub fn gen(seed: u64, idx: u64, tier: Tier) -> Scenario {
         for i in 0..n {
             let typ = *r.pick(&["string", "list", "set", "hash", "zset", "stream"]);
             let size = *r.pick(&[1u64, 2, 3, 5, 20, 64, 200]);
-            sc.steps.push(Step::Ctl { name: "fill".into(), n: (r.next() >> 1) as i64, a: vec![b(typ), b(&format!("{}:{}", tag, i)), b(&format!("{}", size)), b(&format!("{}", *r.pick(&[0u64, 1, 2, 4])))] });
+            sc.steps.push(Step::Ctl { name: "fill".into(), n: (r.next() >> 1) as i64, a: vec![b(typ), b(&format!("{}:{}", tag, i)), b(&format!("{}", size)), b(&format!("{}", r.below(5)))] });
             if r.chance(1, 3) { sc.steps.push(Step::Cmd { c: 0, a: vec![b("PEXPIRE"), b(&format!("{}:{}", tag, i)), b(*r.pick(&["100", "5000", "100000", "100000000"]))], split: vec![] }); }
         }
     };
